@@ -8,6 +8,7 @@
 //	opassign  x += e → x = x + (e)     (x an identifier; also -=)
 //	rename    every local variable / parameter v → v_rn
 //	swapadd   a + b → b + a            (integer operands without calls)
+//	negateif  if c {A} else {B} → if !(c) {B} else {A}   (plain else blocks only)
 package main
 
 import (
@@ -40,7 +41,7 @@ func hasCall(e ast.Expr) bool {
 }
 
 func main() {
-	mode := flag.String("mode", "", "flipcmp|demorgan|opassign|rename|swapadd")
+	mode := flag.String("mode", "", "flipcmp|demorgan|opassign|rename|swapadd|negateif")
 	dir := flag.String("dir", "", "scratch copy of the repository")
 	flag.Parse()
 	if *dir == "" || strings.HasPrefix(*dir, "/repo") {
@@ -201,6 +202,21 @@ func rewrite(mode string, f *ast.File, info *types.Info, pkg *types.Package) int
 			}
 			as.Tok = token.ASSIGN
 			as.Rhs[0] = &ast.BinaryExpr{X: &ast.Ident{Name: id.Name}, Op: op, Y: &ast.ParenExpr{X: as.Rhs[0]}}
+			n++
+			return true
+		})
+	case "negateif":
+		ast.Inspect(f, func(nd ast.Node) bool {
+			is, ok := nd.(*ast.IfStmt)
+			if !ok || is.Else == nil || is.Init != nil {
+				return true
+			}
+			eb, ok := is.Else.(*ast.BlockStmt)
+			if !ok {
+				return true // else-if chains are left alone
+			}
+			is.Cond = &ast.UnaryExpr{Op: token.NOT, X: &ast.ParenExpr{X: is.Cond}}
+			is.Body, is.Else = eb, is.Body
 			n++
 			return true
 		})
